@@ -111,6 +111,7 @@ type Contracts struct {
 	GhostMaps map[string]*GhostField // ghost map name -> (Struct = key sort, Sort = value sort)
 	Files   []string
 	Assumes []string // any 'assume' found in contract files (reported)
+	GlobalInvs []Clause // facts about package-level variables established by package initialisation and never changed
 }
 
 func NewContracts() *Contracts {
@@ -120,7 +121,7 @@ func NewContracts() *Contracts {
 
 var keywords = map[string]bool{"func": true, "requires": true, "ensures": true, "assigns": true, "elems": true, "emits": true, "emit": true,
 	"loop": true, "invariant": true, "decreases": true, "pred": true, "spec": true, "axiom": true, "lemma": true, "event": true,
-	"ghost": true, "at": true, "inline": true, "bounded": true, "exactstrings": true, "havoc": true, "nosafety": true, "assume": true}
+	"ghost": true, "at": true, "inline": true, "bounded": true, "exactstrings": true, "globalinv": true, "havoc": true, "nosafety": true, "assume": true}
 
 type rawLine struct {
 	text string
@@ -453,6 +454,14 @@ func (cs *Contracts) parseLines(lines []rawLine, trusted bool, home string) erro
 			}
 			k := strings.LastIndex(f[1], ".")
 			cs.Ghosts[f[1]] = &GhostField{Struct: f[1][:k], Name: f[1][k+1:], Sort: f[2]}
+			cur = nil
+		case kw == "globalinv":
+			c, err := parseClause(rest, rl)
+			if err != nil {
+				return err
+			}
+			c.Label = home
+			cs.GlobalInvs = append(cs.GlobalInvs, c)
 			cur = nil
 		case kw == "assume":
 			cs.Assumes = append(cs.Assumes, fmt.Sprintf("%s:%d: %s", rl.file, rl.line, rest))
